@@ -44,6 +44,22 @@ func Roots(tier string) []world.Root {
 			roots = append(roots, world.Root{Flows: &sets[i], Trigger: tr, Opt: world.Options{MaxSteps: LooseLimit}})
 		}
 	}
+	// a low resume limit for flows that can nest runs behind waits: the resume that reaches the limit
+	// fails the session while several runs are alive (three levels deep after two resumes)
+	for i := range sets {
+		hasWait, hasEnter := false, false
+		for _, n := range sets[i].Flows[0].Nodes {
+			if n.Kind == "W" || n.Kind == "WT" {
+				hasWait = true
+			}
+			if n.Kind == "Es" || n.Kind == "Eo" {
+				hasEnter = true
+			}
+		}
+		if hasWait && hasEnter {
+			roots = append(roots, world.Root{Flows: &sets[i], Trigger: "manual", Opt: world.Options{MaxSteps: LooseLimit, MaxResumes: 3}})
+		}
+	}
 	// the voice family: dial waits and dial resumes
 	voice := world.EnumFlowSets(voiceKinds, 2, 1)
 	for i := range voice {
@@ -150,6 +166,9 @@ func visit(c *mc.Ctx, t *sm.Trans) bool {
 		}
 	}
 	c.Outcome(fmt.Sprintf("status:%s runs:%d", s.Status(), min(len(s.Runs()), 5)))
+	if t.Root.Opt.MaxResumes == 3 && s.Status() == flows.SessionStatusFailed && len(s.Runs()) >= 3 && len(t.Hist) == 4 {
+		c.Fact("resume_limit_with_three_nested_runs")
+	}
 	if c.WantSample() && len(t.Hist) >= 3 {
 		c.Sample(map[string]any{"flows": t.Root.Flows.String(), "trigger": t.Root.Trigger, "max_steps": t.Root.Opt.MaxSteps, "history": t.Hist,
 			"status": s.Status(), "runs": len(s.Runs()), "state": trim(world.Canon(t.AfterJSON), 600)})
@@ -201,7 +220,7 @@ func init() {
 		Budget: map[string]time.Duration{"quick": 8 * time.Minute, "thorough": 30 * time.Minute},
 		Guards: func(r *mc.Result, tier string) []string {
 			var f []string
-			for _, fact := range []string{"three_runs", "child_expired", "run_failed", "flow_entered", "dial_wait", "dial_ended"} {
+			for _, fact := range []string{"three_runs", "child_expired", "run_failed", "flow_entered", "dial_wait", "dial_ended", "resume_limit_with_three_nested_runs"} {
 				if r.Facts[fact] == 0 {
 					f = append(f, "never observed: "+fact)
 				}
